@@ -43,7 +43,8 @@ def _via(w, src, tool=ID_TOOL, prefix="vfid"):
 
 
 def prune_unconnected(c):
-    """remove, in place, every step / nested-workflow output that cannot influence the top-level outputs"""
+    """remove, in place, every step / nested-workflow output / nested-workflow input that cannot influence the
+    top-level outputs"""
     items = unconnected(c["wf"])
     for path, what, name in items:
         w = c["wf"]
@@ -53,10 +54,14 @@ def prune_unconnected(c):
             w = parent_step["run"]
         if what == "step":
             w["steps"].pop(name, None)
-        else:
+        elif what == "output":
             w["outputs"].pop(name, None)
             if parent_step is not None and name in parent_step["out"]:
                 parent_step["out"] = [o for o in parent_step["out"] if o != name]
+        elif what == "input":
+            w["inputs"].pop(name, None)
+            if parent_step is not None:
+                parent_step["in"].pop(name, None)
     return bool(items)
 
 
@@ -234,10 +239,9 @@ def rw_fresh_token_for_optional_sink(case):
             if n.startswith("vf"):
                 continue
             params = _tool_inputs(c, st["run"])
-            scat = st.get("scatter", [])
-            scat = [scat] if isinstance(scat, str) else scat
             for k, v in list(st["in"].items()):
-                if k not in params or not _optional_or_default(params[k]) or k in scat:
+                # (a scattered input too: the whole array goes through the helper, the step scatters the copy)
+                if k not in params or not _optional_or_default(params[k]):
                     continue
                 srcs = v if isinstance(v, str) else (v.get("source") if isinstance(v, dict) else None)
                 if not srcs:
@@ -302,8 +306,9 @@ def nested_crossproduct_steps(wf):
 
 
 def expose_step_output(case, path, step, out):
-    """add `vfx` outputs (typed Any) that carry <path>/<step>/<out> up to the top level; only through plain
-    (not scattered / conditional / looped) sub-workflow steps.  -> (case', top-level output key) or (None, None)"""
+    """document whose ONLY top-level output `vfx` (typed Any) carries <path>/<step>/<out>, through plain (not
+    scattered / conditional / looped) sub-workflow steps only; everything that no longer reaches an output is
+    pruned (no shared step output, no unconnected part is introduced).  -> (case', 'vfx') or (None, None)"""
     c = copy.deepcopy(case)
     parts = [p for p in path.split("/") if p]
     chain = [c["wf"]]
@@ -316,12 +321,15 @@ def expose_step_output(case, path, step, out):
     key = "vfx"
     for depth in range(len(chain) - 1, -1, -1):
         w = chain[depth]
-        w["outputs"][key] = {"type": ANY, "outputSource": src}
+        w["outputs"] = {key: {"type": ANY, "outputSource": src}}
         if depth > 0:
             parent_step = chain[depth - 1]["steps"][parts[depth - 1]]
-            parent_step["out"] = list(parent_step["out"]) + [key]
+            parent_step["out"] = [key]
             src = f"{parts[depth - 1]}/{key}"
-    return c, key
+    for _ in range(4):
+        if not prune_unconnected(c):
+            break
+    return _drop_unused_inputs(c), key
 
 
 def same_doc(a, b):
